@@ -118,8 +118,13 @@ func (st *ServerStream) Close() {
 	st.closed = true
 
 	for ss := range st.readers {
+		// the reader might be handling a further SETUP request,
+		// that writes its setuppedTransport and setuppedMedias.
+		ss.propsMutex.RLock()
 		st.readerSetInactiveUnsafe(ss)
 		st.readerRemoveUnsafe(ss)
+		ss.propsMutex.RUnlock()
+
 		ss.Close()
 	}
 
